@@ -114,6 +114,19 @@ def tok_multiset(src):
     return code, com
 
 
+def inside_clause_head(src, comment):
+    """the comment stands on its own line(s) directly below an else / except / finally header, above the first statement of that clause"""
+    lines = src.split('\n')
+    for k, l in enumerate(lines):
+        if l.strip() == comment.strip():
+            for m in reversed(lines[:k]):
+                t = m.strip()
+                if not t or t.startswith('#'):
+                    continue
+                return t.split('#')[0].rstrip().endswith(':') and t.split(':')[0].split(' ')[0].rstrip(':') in ('else', 'except', 'finally', 'except*')
+    return False
+
+
 def before_clause_header(src, comment):
     """the comment stands on its own line(s) directly above an else/elif/except/finally header"""
     lines = src.split('\n')
@@ -467,6 +480,8 @@ def stage_oracle(ctx: Ctx, progs, tracer):
             lostc = list((ocom - (rcom + pcom)).elements())
             if lostc and not (rcom + pcom) - ocom and fl in ('orelse', 'finalbody', 'handlers') and degenerate and all(before_clause_header(src, c) for c in lostc):
                 sig = 'comment-lost|comment-line-above-removed-clause-header'
+            elif lostc and not (rcom + pcom) - ocom and fl in ('orelse', 'finalbody', 'handlers') and degenerate and all(before_clause_header(src, c) or inside_clause_head(src, c) for c in lostc):
+                sig = 'comment-lost|comment-line-inside-removed-clause'
             ctx.violation(sig, 'comments of the original are not exactly those of remainder + piece',
                           {**rec, 'lost': list((ocom - (rcom + pcom)))[:4], 'duplicated': list(((rcom + pcom) - ocom))[:4], 'after_cut': r2.src})
     ctx.extra['refusals'] = dict(sorted(refusals.items()))
